@@ -20,6 +20,16 @@ def sh(cmd, cwd=None, env=None, timeout=3600):
     return p.returncode, p.stdout + p.stderr
 
 
+FAMILY = [{"C01", "C02"}, {"C04", "C05", "C15"}, {"C09", "C10", "C20"}, {"C11", "C12"}, {"C13", "C14"}]
+
+
+def family(prop):
+    for f in FAMILY:
+        if prop in f:
+            return sorted(f)
+    return [prop]
+
+
 def one(args):
     kind, name, prop, patch = args
     wt = "/tmp/sweepwt-%s-%d" % (name, os.getpid())
@@ -34,6 +44,18 @@ def one(args):
             res.update(exit=rc, clauses=sorted(set(re.findall(r"clause=([\w-]+)", out))), wall_s=round(time.time() - t, 1))
             if rc == 2:
                 res["tail"] = out[-800:]
+            if kind == "benign" and rc == 0 and "--family" in sys.argv:
+                # a refactor must not alarm the checks of neighbouring properties that exercise the same code either
+                for other in family(prop):
+                    if other == prop:
+                        continue
+                    rc2, out2 = sh("./check %s --tier quick" % other, cwd=VERIF, env=dict(ENV, VERIF_REPO=wt, VERIF_NO_EVIDENCE="1"))
+                    res.setdefault("family", {})[other] = {"exit": rc2, "clauses": sorted(set(re.findall(r"clause=([\w-]+)", out2)))}
+                    if rc2 != 0:
+                        res["exit"] = rc2
+                        res["clauses"] = res["family"][other]["clauses"]
+                        if rc2 == 2:
+                            res["tail"] = out2[-800:]
     finally:
         sh("git -C /repo worktree remove --force %s" % wt)
     res["as_expected"] = res.get("exit") == (1 if kind == "seeds" else 0)
@@ -52,7 +74,7 @@ def main():
         m = re.match(r"(C\d\d)-([A-Z]\d?)$", name)
         if not m or not os.path.exists(patch):
             continue
-        if only and m.group(1) not in only:
+        if only and m.group(1) not in only and name not in only:
             continue
         work.append((kind, name, m.group(1), patch))
     with concurrent.futures.ThreadPoolExecutor(jobs) as ex:
